@@ -32,16 +32,16 @@ THEOREMS = [
     'CC.C18_real_counterexample', 'CC.C18_rounds_up_to_one_text', 'CC.C18_complex_suppression_counterexample',
     'CC.C18_zero_never_infinity', 'CC.C18_exponent_decade_partial', 'CC.C18_accuracy_positional',
     'CC.C18_exponent_decade_small', 'CC.C18_exponent_decade_domain', 'CC.C18_accuracy_domain',
-    'CC.C18_mantissa_range_domain', 'CC.C18_saturate_domain',
+    'CC.C18_mantissa_range_domain', 'CC.C18_saturate_domain', 'CC.C18_tables_ends', 'CC.C18_render', 'CC.C18_real_domain', 'CC.C18_complex_parts',
 ]
 OPEN_STATEMENTS = [
-    'CC.C18_exponent_decade_statement for |v| >= 1e16 only (outside the property domain 1e-15..1e15): the exponent stage '
-    'is proved for every rational 0 < |v| < 1e16 (CC.C18_exponent_decade_domain), hence accuracy, mantissa range and '
-    'saturation hold unconditionally there (C18_accuracy_domain, C18_mantissa_range_domain, C18_saturate_domain)',
-    'CC.C18_render_statement (parseBack ∘ ScientificFloat.__str__ = mantissa3 · 10^exponent3)',
-    'CC.C18_real_partial_statement (text-level C18 outside the rounds-up-to-one region)',
-    'CC.C18_real_statement is FALSE for the current code: CC.C18_real_counterexample (open finding, not repaired: the '
+    'CC.C18_exponent_decade_statement and CC.C18_real_partial_statement for |v| >= 1e16 only (outside the property domain '
+    '1e-15..1e15; proved below 1e16 as C18_exponent_decade_domain / C18_real_domain)',
+    'CC.C18_real_statement is FALSE for the current code: CC.C18_real_counterexample (open finding 1, not repaired: the '
     "repository's own tests encode the behaviour)",
+    'a verified *reader* for the composite texts (parseCartesian / parsePolar / sinusoid): C18_complex_parts proves the '
+    'Cartesian text is sign ++ T_re ++ sign ++ j ++ T_im with each T read back accurately by parseBack, C18_complex_polar the '
+    'polar structure; that parseCartesian splits the text at these places is covered by the correspondence and the oracle',
 ]
 ASSUMPTIONS = [
     'the model formats the exact rational value of the binary64 input; float arithmetic inside Utils.py '
